@@ -227,22 +227,27 @@ def errStr : StructErr → String
 
 def fileIrKeyInj (f : FileIr) : Bool := f.fileIr.all fun p => p.2.sortKeyInjB
 
+/-- `FileIrSets`, the hypothesis of `C18_ir_canonical`: every member list is a set under the model's `==`. -/
+def fileIrSets (f : FileIr) : Bool := f.fileIr.all fun p => p.2.isSetB
+
 /-- op `ser` -/
 def handleSer (payload : Json) : R Json := do
   let kind ← asStr (← field payload "kind")
   let o ← field payload "obj"
-  let (doc, inj) ← match kind with
-    | "symbol" => do pure (unSymbol (← decSymbol o), true)
-    | "fnir" => do let ir ← decFnIr o; pure (unFnIr ir, ir.sortKeyInjB)
-    | "fileir" => do let f ← decFileIr o; pure (unFileIr f, fileIrKeyInj f)
+  let (doc, inj, sets) ← match kind with
+    | "symbol" => do pure (unSymbol (← decSymbol o), true, true)
+    | "fnir" => do let ir ← decFnIr o; pure (unFnIr ir, ir.sortKeyInjB, ir.isSetB)
+    | "fileir" => do let f ← decFileIr o; pure (unFileIr f, fileIrKeyInj f, fileIrSets f)
     | "outputirs" => do
       let x ← decOutputIrs o
-      pure (unOutputIrs x, fileIrKeyInj x.targetIr && x.importIrs.all fun p => fileIrKeyInj p.2)
-    | "results" => do pure (unFileResults (← decFileResults o), true)
-    | "cacheable" => do pure (unCacheable (← decCacheable o), true)
+      pure (unOutputIrs x, fileIrKeyInj x.targetIr && x.importIrs.all fun p => fileIrKeyInj p.2,
+            fileIrSets x.targetIr && x.importIrs.all fun p => fileIrSets p.2)
+    | "results" => do pure (unFileResults (← decFileResults o), true, true)
+    | "cacheable" => do pure (unCacheable (← decCacheable o), true, true)
     | _ => .error s!"unknown kind {kind}"
   return Json.mkObj [("doc", encDoc doc), ("compact", Json.str (toS (JVal.render doc))),
-                     ("sorted_dump", Json.str (toS (dumpSorted doc))), ("sort_key_injective", Json.bool inj)]
+                     ("sorted_dump", Json.str (toS (dumpSorted doc))), ("sort_key_injective", Json.bool inj),
+                     ("members_are_sets", Json.bool sets)]
 
 def wrap {α : Type} (enc : α → Json) : SR α → Json
   | .ok a => Json.mkObj [("ok", enc a)]
